@@ -3,6 +3,7 @@
 import json, os, time
 import orchestrate as O
 import proclanes as PL
+import memcheck as MC
 
 COMMON_ASSUME = [
     "rustc/cargo, std and the crates in Cargo.lock (serde_json, phf, ...) are the trusted base; the harness links the code under test from /repo's working tree by path dependency and rebuilds it on every run",
@@ -60,16 +61,16 @@ PLANS = {
     "C14": P("30 collections (empty / null / empty-string literal and computed, literal arrays of expressions, computed arrays incl. operation-shaped data, multi-byte strings literal and computed, non-collections, literal arrays with probes and poisons after the deciding element) x 14 predicates x {all, some, none}; all strings of length 0..3 over the multi-byte alphabet; random. Judged against the reference model (value, short-circuit via the log trace), none = not some, all(p) = none(not p) on non-empty input, one element per character. Non-trivial = every case; distinct by (rule, data) text. Every run ends with a size ladder: the same monitors at sizes 6..5000 around powers of two (operand counts, collection / string / key-list lengths, deciding positions first / middle / last, nesting depths, digit counts), and where the property has them far ladders (operand / element counts around 2^15 .. 2^17, nesting depths 128 .. 5000 on a thread with a 1 GiB stack, literals of 8 192 .. 70 000 digits, results beyond 16 MiB).",
              ["c14.model", "c14.none-is-not-some", "c14.all-none-duality", "c14.chars"], cells=["all:empty-computed:false", "none:null-literal:true", "some:multibyte-string-computed:true", "all:bad-literal:err", "all:literal-with-probes-and-poison-after-decider:false"]),
     "C18": P("(rule text, data text, supply form) triples: texts from the other properties' corpora (log rules, erroring rules, big / small numbers, non-ASCII, escapes, strings with newlines, pretty-printed variants), invalid texts on either side (36 malformed forms, 1e400, duplicate keys), nesting at and beyond the recursion limit (127, 128, 129 ... 200 000 levels), three ways of supplying the data (argument, stdin, '-'); debug and release binaries. Each invocation's exit status and stdout are compared with the library reached as a separate process (log lines, then exactly one result line; on failure only the log lines and a non-zero status); chain law on log-free first stages. Non-trivial = the rule is an operation or an input is invalid; distinct by (rule, data, form).",
-             ["c18.faithful", "c18.chain", "c18.tty-stdin", "c18.write-failure", "c18.environment-independence", "c01.cli"], inproc={"quick": [], "thorough": []}, proc={"quick": [PL.cli_lane], "thorough": [PL.cli_lane]},
+             ["c18.faithful", "c18.chain", "c18.tty-stdin", "c18.write-failure", "c18.environment-independence", "c18.memcheck-cli", "c01.cli"], inproc={"quick": [], "thorough": []}, proc={"quick": [PL.cli_lane, MC.memcheck_cli_lane], "thorough": [PL.cli_lane, MC.memcheck_cli_lane]},
              cells=["cli:arg:ok", "cli:stdin:ok", "cli:dash:ok", "cli:arg:parse-error", "cli:stdin:eval-error", "class:over-limit-data", "class:big-multibyte-data", "class:invalid-data-multibyte", "chain", "tty-stdin"], evaluations=500),
     "C19": P("JSON texts and the Python objects decoded from them (dict / list / str / int incl. beyond 64 bits / float / bool / None, non-finite floats) through jsonlogic_rs.apply (data omitted / given x serializer omitted / tagging wrapper x deserializer omitted / tagging wrapper) and jsonlogic_rs.apply_serialized (data omitted / None / given x deserializer omitted / given); malformed texts and over-limit nesting; debug and release extension, each in child interpreters. The return value must equal json.loads(library result) under a type-exact comparison (bool / int / float distinguished, floats by hex), errors must be exactly ValueError, supplied (de)serialisers must be called exactly once per argument. Non-trivial = the rule is an operation or an input is malformed; distinct by (rule, data) text.",
-             ["c19.apply", "c19.apply_serialized", "c19.serializer-calls", "c19.stateless-wrapper"], inproc={"quick": [], "thorough": []}, proc={"quick": [PL.py_lane], "thorough": [PL.py_lane]},
+             ["c19.apply", "c19.apply_serialized", "c19.serializer-calls", "c19.stateless-wrapper", "c19.memcheck-py"], inproc={"quick": [], "thorough": []}, proc={"quick": [PL.py_lane, MC.memcheck_py_lane], "thorough": [PL.py_lane, MC.memcheck_py_lane]},
              cells=["py:apply_serialized(text,text):value", "py:apply_serialized(text):value", "py:apply(obj,obj,ser,de):value", "py:apply(obj):value", "py:apply_serialized(text,text):error", "py:apply(nan-rule):error"], evaluations=500),
     "C01": P("totality of apply and of the public js_op helpers: 35 operators x all ordered pairs of 65 extreme values (64-bit integer extremes, 2^53 / 2^63 / 2^64 neighbours, +-1e308, subnormals, multi-byte strings, numeric strings naming the extremes, odd containers) in bracketed, bare and three-operand index-taking forms; extreme numeric path segments and integer keys; results forced out of range; the deepest chains serde_json delivers (63 bracketed / 127 bare levels) of every operator and in every operand position, 127-level data reached by 19 operators, 20 000-element and 60 000-character documents; random trees (depth <= 5) with extreme values spliced in; every helper on all ordered pairs of 212 values. Lanes: debug, release, release+overflow-checks (all every run), AddressSanitizer and Miri (thorough), the real CLI (debug + release; exit status in {0,1}, no signal, no 'panicked'; nesting 129 .. 200 000 levels) and the real Python extension (only ValueError, interpreter survives). Bounded termination: <= 10 s thread-CPU per call on documents <= 64 KiB. Non-trivial = every case (all are aimed at panics); distinct by (rule, data) text.",
              ["c01.apply", "c01.helpers", "c01.cpu-bound", "c01.cli"],
              inproc={"quick": [("relchk", 16, 3.0), ("dev", 16, 0.5), ("release", 16, 3.0)],
                      "thorough": [("relchk", 16, 2.0), ("dev", 16, 0.3), ("release", 16, 2.0), ("asan", 16, 0.1), ("miri", 8, None)]},
-             proc={"quick": [PL.cli_lane, PL.py_lane, PL.amplify_lane], "thorough": [PL.cli_lane, PL.py_lane, PL.amplify_lane]},
+             proc={"quick": [PL.cli_lane, PL.py_lane, PL.amplify_lane], "thorough": [PL.cli_lane, PL.py_lane, PL.amplify_lane, MC.memcheck_cli_lane, MC.memcheck_py_lane]},
              cells=["amplify:small:answered", "wide-lazy:value", "error-echo:20KB:error", "deep-value:beyond-limit:error", "mutated-text:value", "matrix-2:value", "matrix-2:error", "matrix-bare:value", "deep-bare:127:*", "deep-bracketed:63:*", "deep-data:value", "wide:value", "range:overflow:error", "index-key:value", "helper:abstract_plus", "class:over-limit-rule"],
              extra_assume=["'never hangs' is restated as a bound: every call on a document of at most 64 KiB finishes within 10 s of thread CPU time (observed maximum is reported); a wall-clock watchdog firing is inconclusive, not a violation",
                            "domain: documents the text interfaces can deliver (serde_json recursion limit 128)"]),
